@@ -12,6 +12,24 @@ pub struct C08;
 
 const INTERESTING: &[u64] = &[0, 1, 2, 0x7f, 0x80, 0xff, 0x100, 0xffff, 0x1_0000, 0x1_0001, 0x7fff_ffff, 0x8000_0000, 0xffff_ffff, 0x1_0000_0000, 0x2000_0000, 0x7fff_ffff_ffff_ffff, 0x8000_0000_0000_0000, 0xffff_ffff_ffff_ffff];
 
+/// Boundary values derived from the arithmetic the layers apply to positions (not only the usual
+/// 0 / 2^k / 2^64-1): the largest plaintext position whose position-with-tags still fits in 64 bits,
+/// quotients and multiples of the chunk, chunk+tag and block sizes near 2^64.
+fn derived_values(chunk: u64, block: u64) -> Vec<u64> {
+    let ct = chunk + 16;
+    let q = u64::MAX / ct;
+    let enc_max = q * chunk + (u64::MAX % ct).min(chunk - 1);
+    let mut v = vec![enc_max - 1, enc_max, enc_max + 1, enc_max + chunk / 2, q * chunk + chunk - 1, q * chunk, (q + 1) * chunk, q, q * ct, q * ct - 1];
+    for m in [chunk, ct, block] {
+        let qm = u64::MAX / m;
+        v.extend_from_slice(&[qm, qm * m, qm * m - 1, (qm * m).wrapping_add(1), qm - 1]);
+    }
+    v.push(u64::MAX - chunk);
+    v.push(u64::MAX - ct);
+    v.push(i64::MAX as u64 - chunk);
+    v
+}
+
 /// numeric fields (offset, width) of a file-layer stream, from the format model's parse
 fn inner_fields(stream: &[u8]) -> Vec<(usize, usize, &'static str)> {
     let mut f = Vec::new();
@@ -86,7 +104,7 @@ fn put(buf: &mut [u8], at: usize, width: usize, val: u64) {
 }
 
 /// one structured mutation of a byte string with known fields
-fn mutate(buf: &mut Vec<u8>, fields: &[(usize, usize, &'static str)], rng: &mut Rng) -> String {
+fn mutate(buf: &mut Vec<u8>, fields: &[(usize, usize, &'static str)], rng: &mut Rng, derived: &[u64]) -> String {
     if buf.is_empty() {
         buf.push(rng.below(256) as u8);
         return "grow".into();
@@ -94,7 +112,7 @@ fn mutate(buf: &mut Vec<u8>, fields: &[(usize, usize, &'static str)], rng: &mut 
     match rng.below(10) {
         0..=4 if !fields.is_empty() => {
             let (at, w, name) = *rng.pick(fields);
-            let val = *rng.pick(INTERESTING);
+            let val = if rng.chance(1, 4) && !derived.is_empty() { *rng.pick(derived) } else { *rng.pick(INTERESTING) };
             let val = if rng.chance(1, 3) { buf.len() as u64 + rng.below(5) - 2 } else { val };
             put(buf, at, w, val);
             format!("field:{name}")
@@ -150,7 +168,7 @@ fn mutate(buf: &mut Vec<u8>, fields: &[(usize, usize, &'static str)], rng: &mut 
 }
 
 /// hand-built hostile file-layer streams
-fn crafted_stream(kind: u64, rng: &mut Rng, scale: usize) -> (Vec<u8>, &'static str) {
+fn crafted_stream(kind: u64, rng: &mut Rng, scale: usize, derived: &[u64]) -> (Vec<u8>, &'static str) {
     use refmla::WBlock as W;
     let h = |d: &[u8]| -> [u8; 32] { sha256(d) };
     match kind {
@@ -212,6 +230,16 @@ fn crafted_stream(kind: u64, rng: &mut Rng, scale: usize) -> (Vec<u8>, &'static 
             idx[n - 4..].copy_from_slice(&l.to_le_bytes());
             s.extend(idx);
             (s, "index-length-field")
+        }
+        8 => {
+            // index offsets at the edge of what the layers' position arithmetic can represent
+            let blocks = vec![W::Start { id: 0, name: b"a".to_vec() }, W::Content { id: 0, data: vec![1; 4] }, W::End { id: 0, hash: h(&[1; 4]) }, W::Start { id: 1, name: b"b".to_vec() }, W::End { id: 1, hash: h(b"") }, W::EndOfArchive];
+            let (mut s, offs) = refmla::encode_blocks(&blocks);
+            let pick = |rng: &mut Rng| -> u64 { if derived.is_empty() { u64::MAX } else { *rng.pick(derived) } };
+            let a = pick(rng);
+            let b = pick(rng);
+            s.extend(refmla::encode_index(&[("a".into(), vec![a], 4, offs[2] as u64), ("b".into(), vec![offs[3] as u64], 0, b), ("c".into(), vec![offs[0] as u64, a, b], a, b)]));
+            (s, "index-offsets-at-arithmetic-edge")
         }
         6 => {
             // only a length field, or nothing at all
@@ -342,7 +370,7 @@ impl Prop for C08 {
         "fault_enumeration"
     }
     fn rule(&self) -> String {
-        "run = a hostile image derived from a seeded valid archive (all layer sets) by k <= 3 structured faults placed at any of the three layers of the stack: (stored) cut, bit flip, byte substitution, integer-field overwrite with boundary values, encrypted-chunk swap/duplicate/delete/splice, garbage tail, raw PRNG bytes; (inner) the decrypted/decompressed file-layer stream or the compressed stream is mutated on its parsed fields (block type/id/length, every index field, size-table fields: values 0,1,len-1,len,len+1,2^31,2^32-1,2^63,2^64-1...), spans duplicated/deleted/moved, or replaced by a hand-built hostile stream (thousands of index offsets pointing at a foreign block, empty/out-of-range offset lists, degenerate and reused blocks, huge announced lengths, 512 MiB length prefixes, broken length fields, empty size table, last_block_size > BLOCK, huge compressed sizes, block longer than declared, brotli large-window header asking for a 1 GiB ring buffer) and then re-wrapped by the format model's foreign writer through compression and VALID encryption for the reader's key; the first 3000 quick runs enumerate, on s0 without layers, every single bit flip and every cut of one small archive's stored bytes. Then an operation history that continues after errors: open, list, open+read each listed and each original name with seeded buffers, read after errors, hashes, linear extraction (all / subset), repair in both modes, layer-level seeks (also beyond the end) and reads on a stack that already failed, drop. Oracle per operation: returns Ok or Err - no panic (overflow checks on), the worker process survives (stack overflow, abort), at most 200*len+50000 seam calls, peak live heap above the start of the operation <= 48 MiB + 16*len(image); a single request >= 1 GiB aborts the worker and is reported. evaluations = operations judged; distinct_nontrivial = distinct (variant, layers, fault placement, mutation kinds, operation, outcome class) signatures.".into()
+        "run = a hostile image derived from a seeded valid archive (all layer sets) by k <= 3 structured faults placed at any of the three layers of the stack: (stored) cut, bit flip, byte substitution, integer-field overwrite with boundary values, encrypted-chunk swap/duplicate/delete/splice, garbage tail, raw PRNG bytes; (inner) the decrypted/decompressed file-layer stream or the compressed stream is mutated on its parsed fields (block type/id/length, every index field, size-table fields: values 0,1,len-1,len,len+1,2^31,2^32-1,2^63,2^64-1... and values DERIVED from the position arithmetic of the layers: the largest plaintext position whose position-with-tags fits in 64 bits, +-1, quotients/multiples of CHUNK, CHUNK+16 and BLOCK near 2^64), spans duplicated/deleted/moved, or replaced by a hand-built hostile stream (thousands of index offsets pointing at a foreign block, index offsets at the edge of what the layers' position arithmetic can represent, empty/out-of-range offset lists, degenerate and reused blocks, huge announced lengths, 512 MiB length prefixes, broken length fields, empty size table, last_block_size > BLOCK, huge compressed sizes, block longer than declared, brotli large-window header asking for a 1 GiB ring buffer) and then re-wrapped by the format model's foreign writer through compression and VALID encryption for the reader's key; the first 3000 quick runs enumerate, on s0 without layers, every single bit flip and every cut of one small archive's stored bytes. Then an operation history that continues after errors: open, list, open+read each listed and each original name with seeded buffers, read after errors, hashes, linear extraction (all / subset), repair in both modes, layer-level seeks (also beyond the end) and reads on a stack that already failed, drop. Oracle per operation: returns Ok or Err - no panic (overflow checks on), the worker process survives (stack overflow, abort), at most 200*len+50000 seam calls, peak live heap above the start of the operation <= 48 MiB + 16*len(image); a single request >= 1 GiB aborts the worker and is reported. evaluations = operations judged; distinct_nontrivial = distinct (variant, layers, fault placement, mutation kinds, operation, outcome class) signatures.".into()
     }
     fn assumptions(&self) -> Vec<String> {
         vec![
@@ -358,31 +386,30 @@ impl Prop for C08 {
     }
     fn make(&self, seed: u64, run: u64, tier: Tier) -> Case {
         let mut rng = Rng::derive(seed, "C08", run, "gen");
-        if (2970..2984).contains(&run) {
-            // every hand-built hostile compressed stream once on the unmodified build (compression only) and on s1 (both layers)
-            let k = run - 2970;
-            let (variant, layers) = if k < 7 { ("prod", 2u8) } else { ("s1", 3u8) };
-            let cfg = ArcCfg { variant: variant.into(), layers, level: 3, recipients: usize::from(layers & 1 != 0), reader: 0, rng_seed: if variant == "s1" { 9 } else { 0 }, key_seed: 9 };
+        if (2800..3000).contains(&run) {
+            // every hand-built hostile stream on four (variant, layers) combinations: stream kinds 0..8 with
+            // 8 PRNG draws each for the edge-of-arithmetic kind, compressed-stream kinds 0..6
+            let k = run - 2800;
+            let combos: [(&str, u8); 4] = [("prod", 0), ("s1", 3), ("s0", 1), ("prodv", 1)];
+            let ccombos: [(&str, u8); 4] = [("prod", 2), ("s1", 3), ("s0", 2), ("prodv", 3)];
+            let (variant, layers, place, craft, mseed) = if k < 36 {
+                (combos[(k / 9) as usize].0, combos[(k / 9) as usize].1, 3, k % 9, 5)
+            } else if k < 64 {
+                let j = k - 36;
+                (ccombos[(j / 7) as usize].0, ccombos[(j / 7) as usize].1, 4, j % 7, 5)
+            } else {
+                // the arithmetic-edge kind again, with other draws of the derived values
+                let j = k - 64;
+                (combos[(j % 4) as usize].0, combos[(j % 4) as usize].1, 3, 8, 100 + j)
+            };
+            let hooks = variant != "prod";
+            let cfg = ArcCfg { variant: variant.into(), layers, level: 3, recipients: usize::from(layers & 1 != 0), reader: 0, rng_seed: if hooks { 9 } else { 0 }, key_seed: 9 };
             let ops = vec![WOp::Add { name: Name::lit("a"), data: Data::Period { n: 40, p: 7 }, src: Src::exact() }, WOp::Finalize];
             let mut case = Case::new("C08", cfg, ops);
-            case.params.insert("place".into(), 4);
-            case.params.insert("craft".into(), (k % 7) as i64);
-            case.params.insert("mut_seed".into(), 5);
-            case.params.insert("hist_seed".into(), 23);
-            return case;
-        }
-        if (2984..3000).contains(&run) {
-            // every hand-built hostile stream once on the unmodified build without layers (full scale:
-            // 200 000 index offsets) and once on s1 with both layers
-            let k = run - 2984;
-            let (variant, layers) = if k < 8 { ("prod", 0u8) } else { ("s1", 3u8) };
-            let cfg = ArcCfg { variant: variant.into(), layers, level: 3, recipients: usize::from(layers & 1 != 0), reader: 0, rng_seed: if variant == "s1" { 9 } else { 0 }, key_seed: 9 };
-            let ops = vec![WOp::Add { name: Name::lit("a"), data: Data::Period { n: 40, p: 7 }, src: Src::exact() }, WOp::Finalize];
-            let mut case = Case::new("C08", cfg, ops);
-            case.params.insert("place".into(), 3);
-            case.params.insert("craft".into(), (k % 8) as i64);
-            case.params.insert("mut_seed".into(), 5);
-            case.params.insert("hist_seed".into(), 23);
+            case.params.insert("place".into(), place);
+            case.params.insert("craft".into(), craft as i64);
+            case.params.insert("mut_seed".into(), mseed as i64);
+            case.params.insert("hist_seed".into(), 23 + k as i64);
             return case;
         }
         if run < 3000 {
@@ -432,7 +459,7 @@ impl Prop for C08 {
         case.params.insert("k".into(), rng.range(1, 3) as i64);
         case.params.insert("mut_seed".into(), (rng.u64() >> 1) as i64);
         case.params.insert("hist_seed".into(), (rng.u64() >> 1) as i64);
-        case.params.insert("craft".into(), rng.below(8) as i64);
+        case.params.insert("craft".into(), rng.below(9) as i64);
         case
     }
     fn exec(&self, case: &Case, ctx: &mut Ctx) -> Vec<Violation> {
@@ -451,6 +478,7 @@ impl Prop for C08 {
         let hlen = header_len(&case.cfg);
         let place = case.param("place", 0);
         let mut mrng = Rng::new(case.param("mut_seed", 1) as u64);
+        let derived = derived_values(vc.chunk, vc.block);
         let mut kinds: Vec<String> = Vec::new();
         let mut inner_len_hint = 0usize;
         // ---- build the hostile image
@@ -489,7 +517,7 @@ impl Prop for C08 {
                             let mut st = lay.dec.stream.clone();
                             for _ in 0..k {
                                 let fields = inner_fields(&st);
-                                kinds.push(format!("inner:{}", mutate(&mut st, &fields, &mut mrng)));
+                                kinds.push(format!("inner:{}", mutate(&mut st, &fields, &mut mrng, &derived)));
                             }
                             inner_len_hint = st.len();
                             refmla::wrap(&st, layers, case.cfg.level, Some(&spec()), par)
@@ -497,7 +525,7 @@ impl Prop for C08 {
                             let mut cs = lay.dec.enc_plain.clone();
                             for _ in 0..k {
                                 let fields = comp_fields(&cs);
-                                kinds.push(format!("comp:{}", mutate(&mut cs, &fields, &mut mrng)));
+                                kinds.push(format!("comp:{}", mutate(&mut cs, &fields, &mut mrng, &derived)));
                             }
                             // re-wrap below the compression layer: header + (encrypted) mutated compressed stream
                             let sp = spec();
@@ -513,7 +541,7 @@ impl Prop for C08 {
                     Err(_) => base.clone(),
                 },
                 3 => {
-                    let (st, name) = crafted_stream(case.param("craft", 0) as u64, &mut mrng, if par.chunk > 1000 && layers == 0 { 100 } else if par.chunk > 1000 && layers == 1 { 4 } else { 1 });
+                    let (st, name) = crafted_stream(case.param("craft", 0) as u64, &mut mrng, if par.chunk > 1000 && layers == 0 { 100 } else if par.chunk > 1000 && layers == 1 { 4 } else { 1 }, &derived);
                     kinds.push(format!("crafted:{name}"));
                     inner_len_hint = st.len();
                     refmla::wrap(&st, layers, case.cfg.level, Some(&spec()), par)
